@@ -22,8 +22,8 @@ _perf = runner._perf
 
 TIERS = {
     # engine -> number of runs
-    'quick': {'H': 900, 'N': 1100, 'T': 500},
-    'thorough': {'H': 30000, 'N': 40000, 'T': 16000},
+    'quick': {'H': 1600, 'N': 2200, 'T': 1000},
+    'thorough': {'H': 50000, 'N': 70000, 'T': 30000},
 }
 ENGINE_OFFSET = {'H': 0, 'N': 10 ** 9, 'T': 2 * 10 ** 9}
 
